@@ -30,6 +30,9 @@ ASSUMPTIONS = ["lmfit's optimiser is symmetric under a global sign flip of "
                "data, amplitudes and amplitude bounds"]
 
 MUTANTS = [
+    ("image loader memoised by path", "AegeanTools/fits_tools.py",
+     "def load_image_band(filename,",
+     "@lru_cache(maxsize=8)\ndef load_image_band(filename,", "C13-R9"),
     ("island peak pixel located with nanargmax", "AegeanTools/source_finder.py",
      "                positions = np.where(kappa_sigma == source.peak_flux)",
      "                positions = np.unravel_index(\n"
@@ -286,6 +289,11 @@ def run(ctx):
     r6_guards(ctx, prog)
     r7_error_symmetry(ctx, prog)
     r8_island_peak(ctx, prog)
+    # load_globals subtracts the background IN PLACE from the array the
+    # loader returned: every search must get a fresh array (shared with
+    # C20-R7)
+    from .c20 import r7_fresh
+    r7_fresh(ctx, prog, rule="C13-R9")
 
 
 def _stmt(pm, n):
